@@ -330,12 +330,16 @@ func init() {
 	add("http/codegen.ServicesData.analyze", "header", "security schemes located in headers; there is no cookie location for schemes", "□schemes: _")
 	add("http/codegen.buildErrorsData", "header", "the goa-error response header has no cookie counterpart", "Error□: _.Name")
 	add("http/codegen/openapi/v3.responseFromExpr", "header", "OpenAPI response objects have headers only; cookies are documented as a Set-Cookie header", "□s: _")
-	add("expr.HTTPResponseExpr.mapUnmappedAttrs", "header", "with SkipResponseBodyEncodeDecode the unmapped result attributes are sent as headers by design",
-		"_.□s.FindKey(_.Name)", "_.□s.Type.(*Object).Set(_.Name, _.Attribute)", "_.□s.Map(\"goa-attribute-\"+_.Name, _.Name)", "_.□s.Validation == nil", "_.□s.Validation = &ValidationExpr{}", "_.□s.Validation.AddRequired(_.Name)", "_.□s.IsEmpty()", "_.□s.Type.(*Object).Set(\"goa-attribute\", _)")
 	add("expr.HTTPServiceExpr.Validate", "header", "service-level cookies are validated with the endpoints that inherit them", "_.□s != nil", "_.Merge(_.□s.Validate(\"□s\", _))")
-	add("expr.findKey", "header", "security keys are looked up in params, headers and body only", "_.□s.FindKey(_)")
-	add("http/codegen/openapi/v2.paramsFromHeaders", "header", "OpenAPI v2 has no cookie parameter location (known finding R07.3 covers the omission)", "_.□s.IsRequiredNoDefault(_)")
-	add("http/codegen/openapi/v2.responseSpecFromExpr", "header", "OpenAPI v2 responses document headers only", "□sFromExpr(_.□s)")
+}
+
+// reviewedOneSided lists functions that handle one word of a pair only, by design: whatever they do with it has
+// no counterpart as long as the function does not touch the other word at all (function|word -> reason).
+var reviewedOneSided = map[string]string{
+	"expr.HTTPResponseExpr.mapUnmappedAttrs|header":       "with SkipResponseBodyEncodeDecode the unmapped result attributes are sent as headers by design",
+	"expr.findKey|header":                                 "security keys are looked up in params, headers and body only",
+	"http/codegen/openapi/v2.paramsFromHeaders|header":    "OpenAPI v2 has no cookie parameter location (known finding R07.3 covers the omission)",
+	"http/codegen/openapi/v2.responseSpecFromExpr|header": "OpenAPI v2 responses document headers only",
 }
 
 func swapWord(name, a, b string) string {
@@ -387,6 +391,19 @@ func anchorParity(c *an.Ctx, rule string, funcs []*an.Func) {
 				asym = an.Parity(f, pair[0], pair[1])
 			}
 			checked++
+			if len(asym) > 0 {
+				w := asym[0].Word
+				same := true
+				for _, a := range asym {
+					if a.Word != w {
+						same = false
+					}
+				}
+				if _, ok := reviewedOneSided[f.Name+"|"+w]; ok && same && an.ParityUnitCount(f, otherWord(pair, w), pair[0], pair[1]) == 0 {
+					units += len(asym)
+					continue
+				}
+			}
 			for _, a := range asym {
 				units++
 				key := f.Name + "|" + a.Word + "|" + a.Norm
